@@ -62,7 +62,7 @@ def build(ctx):
     return True
 
 
-RACE_FRAME = re.compile(r"^\s+(github\.com/moov-io/ach[^\s(]*)\(", re.M)
+RACE_FRAME = re.compile(r"^\s+(github\.com/moov-io/ach\S*)\(\)\s*$", re.M)
 
 
 def race_failures(out, case):
@@ -92,6 +92,12 @@ def oracle(ctx, n, sub="oracle", race=False, salt=1902):
             if f["key"] not in seen:
                 seen.add(f["key"])
                 ctx.fails.append(f)
+    elif "fatal error: concurrent map" in out:
+        case = {"mode": "race", "n": n, "salt": salt, "seed": ctx.seed, "race_build": race}
+        m = RACE_FRAME.search(out[out.index("fatal error: concurrent map"):])
+        frame = m.group(1).replace("github.com/moov-io/ach", "ach") if m else "unknown-frame"
+        ctx.fails.append({"kind": "fail", "key": "fatal:concurrent-map-access:" + frame,
+                          "what": "the Go runtime aborted the process: " + out[out.index("fatal error: concurrent map"):][:1500], "case": case, "input": case})
     elif rc != 0:
         ctx.diag.append("oracle (%s) crashed rc=%d: %s" % (sub, rc, out[-300:]))
     summ = ctx.read_jsonl(os.path.join(d, "oracle.jsonl"))
@@ -102,9 +108,9 @@ def oracle(ctx, n, sub="oracle", race=False, salt=1902):
 
 def search(ctx, factor):
     before = len(ctx.fails)
-    oracle(ctx, ctx.scale(2500, 20000) * factor, "search", salt=2902)
+    oracle(ctx, ctx.scale(5000, 40000) * factor, "search", salt=2902)
     if len(ctx.fails) == before and os.path.exists(os.path.join(C.BUILD, "bin-race", "c19")):
-        oracle(ctx, ctx.scale(300, 2500) * 3, "search-race", race=True, salt=2903)
+        oracle(ctx, ctx.scale(600, 5000) * 3, "search-race", race=True, salt=2903)
     found = ctx.fails[before:]
     del ctx.fails[before:]
     return found
@@ -140,10 +146,10 @@ def run(ctx):
                     os.path.join(d, "impl.txt"), os.path.join(d, "cases.txt"))
     else:
         ctx.diag.append("correspondence could not run: " + out[-300:])
-    summ = oracle(ctx, ctx.scale(2500, 20000))
+    summ = oracle(ctx, ctx.scale(5000, 40000))
     ctx.add_summary(summ, "concurrent vs sequential")
     if os.path.exists(os.path.join(C.BUILD, "bin-race", "c19")):
-        rs = oracle(ctx, ctx.scale(300, 2500), "oracle-race", race=True, salt=1903)
+        rs = oracle(ctx, ctx.scale(600, 5000), "oracle-race", race=True, salt=1903)
         ctx.add_summary(rs, "same under -race")
         ctx.cov["race_detector"] = {"evaluations": int(rs.get("evaluations", 0)) if rs else 0,
                                     "reports": len([f for f in ctx.fails if str(f.get("key", "")).startswith("race:")])}
